@@ -133,7 +133,7 @@ func runC19Multi(a *Args) error {
 
 const c19MultiDirected = 4
 
-const c19TagCreateNonce = "kf-C19-multimsg-create-nonce-reset"
+const c19TagCreateNonce = "regress-C19-multimsg-create-nonce-reset"
 
 func (s *c19S) oneMulti(directed bool, directedVariant int) error {
 	rng := s.rng
@@ -195,6 +195,17 @@ func (s *c19S) oneMulti(directed bool, directedVariant int) error {
 			planSender, planKind = planSender[:2], []int{7, 7} // second creation gets too little gas and fails
 		}
 	}
+	// case family "precompile write, then an error return": an early message deposits through the assets precompile and
+	// succeeds, the LAST message of the transaction returns an error (gas limit below intrinsic gas, or value sent to a
+	// blocked module account), so the whole cosmos transaction is dropped after the ante handler: the precompile's
+	// restaking writes must be dropped with it
+	dropFamily := !directed && rng.Intn(6) == 0
+	dropHow := rng.Intn(2)
+	if dropFamily {
+		planKind[0] = 8 // precompile deposit
+		planKind[k-1] = 0
+		s.w.Count("family=precompile-write-then-error-return")
+	}
 	var msgs []sdk.Msg
 	var tags []string
 	if directed {
@@ -221,7 +232,7 @@ func (s *c19S) oneMulti(directed bool, directedVariant int) error {
 		}
 		nonce := nextNonce[sender]
 		nextNonce[sender]++
-		if rng.Intn(30) == 0 && !directed {
+		if rng.Intn(30) == 0 && !directed && !dropFamily {
 			nonce++ // nonce gap: the whole transaction is refused
 		}
 		var to *common.Address
@@ -269,6 +280,9 @@ func (s *c19S) oneMulti(directed bool, directedVariant int) error {
 			data = c19InitStoreReturn
 		default:
 			rev := rng.Intn(2) == 0
+			if dropFamily && i == 0 {
+				rev = false
+			}
 			kind = map[bool]string{true: "precompile-deposit-revert", false: "precompile-deposit-ok"}[rev]
 			to = addrp(s.proxy)
 			in, err := s.assetsP.Pack(assetsprecompile.MethodDepositLST, uint32(env.LzID), c19Pad32(common.FromHex(env.AssetAddr)),
@@ -300,6 +314,17 @@ func (s *c19S) oneMulti(directed bool, directedVariant int) error {
 				gas = intr
 			}
 		}
+		if dropFamily {
+			gas = uint64(s.pick(100_000, 150_000))
+			if i == k-1 {
+				if dropHow == 0 {
+					gas = intr - 1
+				} else {
+					to = addrp(common.BytesToAddress(authtypes.NewModuleAddress("gov")))
+					value = big.NewInt(int64(1 + rng.Intn(1000)))
+				}
+			}
+		}
 		if directed {
 			gas = uint64(s.pick(150_000, 200_000)) // the creation must succeed for its nonce write to be kept
 			if directedVariant == 3 {
@@ -310,13 +335,13 @@ func (s *c19S) oneMulti(directed bool, directedVariant int) error {
 		if price.Cmp(mgpInt) < 0 {
 			price = new(big.Int).Add(mgpInt, big.NewInt(1))
 		}
-		if rng.Intn(30) == 0 && !directed {
+		if rng.Intn(30) == 0 && !directed && !dropFamily {
 			price = new(big.Int).Sub(baseFee, big.NewInt(1))
 			if price.Sign() < 0 {
 				price = big.NewInt(0)
 			}
 		}
-		if rng.Intn(40) == 0 && !directed && gas > 0 {
+		if rng.Intn(40) == 0 && !directed && !dropFamily && gas > 0 {
 			// one more than the sender can afford for this gas limit
 			price = new(big.Int).Add(new(big.Int).Quo(s.bal(env.Ctx, from.Bytes()), new(big.Int).SetUint64(gas)), big.NewInt(1))
 		}
@@ -412,6 +437,17 @@ func (s *c19S) oneMulti(directed bool, directedVariant int) error {
 	}
 	if res.Code != 0 {
 		s.w.Count(fmt.Sprintf("code=%s/%d", res.Codespace, res.Code))
+	}
+	if res.Code != 0 && changed {
+		for _, m := range cs.Msgs {
+			if m.OWorld != cs.World0 && !m.OFailed && m.OWorld != "" {
+				s.w.Count("dropped-tx-had-written-other-stores")
+				if cs.World1 == cs.World0 {
+					s.w.Count("dropped-tx-writes-gone")
+				}
+				break
+			}
+		}
 	}
 	if blim > 0 {
 		s.w.Count("env.blockgas=limited")
